@@ -207,6 +207,20 @@ def extract(repo):
             raise Missing('Result tags: %s %s %s' % (ok, er, arms))
         return [int(ok[0]), int(er[0])]
     grab('resultTags', result_tags)
+    # mani
+    m = read(repo, 'mani/src/lib.rs')
+    def tx_separator():
+        mm = re.search(r'const\s+TX_SEPARATOR\s*:\s*&str\s*=\s*"([^"\\]*)"\s*;', m)
+        if not mm:
+            raise Missing('TX_SEPARATOR')
+        return [ord(c) for c in mm.group(1)]
+    grab('maniTxSeparator', tx_separator)
+    def min_line():
+        mm = re.search(r'line\.len\(\)\s*>\s*(\d+)', m)
+        if not mm:
+            raise Missing('line.len() > N in ManifestIterator::next')
+        return int(mm.group(1))
+    grab('maniMinLine', min_line)
     return out, notes
 
 def lean_str(x):
